@@ -150,6 +150,10 @@ package rle
 //@ pred wholeGroups(n, width) := (width == 1) || (width == 2 && n % 2 == 0) || (width == 3 && n % 3 == 0) || (width == 4 && n % 4 == 0)
 //@ func readRLEBitPacked
 //@   verify[C04]
+//@   split width == 1
+//@   split width == 2
+//@   split width == 3
+//@   split width == 4
 //@   requires dyn(r) == typeid("*bytes.Reader") && payload(r) != 0
 //@   requires[C04] width <= 4
 //@   free-requires header < 1099511627776
@@ -162,6 +166,22 @@ package rle
 //@   invariant freshOrNil(out) && freshsince(rawBytes) && (rfault ==> old(rfault))
 //@   invariant[C04] 1 <= width && width <= 4 && wholeGroups(#rawBytes, width)
 //@   invariant[C04] #out * width + 8 * #rawBytes == 8 * width * (header / 2)
+// C04/C07: every value decoded so far is the LSB-first field of the bytes read for the run
+// (value e of group g occupies bits [w*e, w*e+w) of the little-endian integer formed by bytes
+// w*g .. w*g+w-1), whatever the number of groups
+//@   invariant[C04,C07] #out % 8 == 0 && off(rawBytes) * 8 == width * #out && (ref(out) == 0 || ref(out) != ref(rawBytes))
+//@ template J in 0:0:0 1:1:1 2:2:2 3:3:3 4:4:4 5:5:5 6:6:6 7:7:7
+//@   invariant[C04,C07] width == 1 ==> (forall g in 0..#out: 8 * g < #out ==> out[8 * g + {J}] == zext(8, extract({J1}, {J2}, sel(HA(rawBytes), g))))
+//@ end template
+//@ template J in 0:1:0 1:3:2 2:5:4 3:7:6 4:9:8 5:11:10 6:13:12 7:15:14
+//@   invariant[C04,C07] width == 2 ==> (forall g in 0..#out: 8 * g < #out ==> out[8 * g + {J}] == zext(8, extract({J1}, {J2}, concat(sel(HA(rawBytes), 2 * g + 1), sel(HA(rawBytes), 2 * g)))))
+//@ end template
+//@ template J in 0:2:0 1:5:3 2:8:6 3:11:9 4:14:12 5:17:15 6:20:18 7:23:21
+//@   invariant[C04,C07] width == 3 ==> (forall g in 0..#out: 8 * g < #out ==> out[8 * g + {J}] == zext(8, extract({J1}, {J2}, concat(sel(HA(rawBytes), 3 * g + 2), sel(HA(rawBytes), 3 * g + 1), sel(HA(rawBytes), 3 * g)))))
+//@ end template
+//@ template J in 0:3:0 1:7:4 2:11:8 3:15:12 4:19:16 5:23:20 6:27:24 7:31:28
+//@   invariant[C04,C07] width == 4 ==> (forall g in 0..#out: 8 * g < #out ==> out[8 * g + {J}] == zext(8, extract({J1}, {J2}, concat(sel(HA(rawBytes), 4 * g + 3), sel(HA(rawBytes), 4 * g + 2), sel(HA(rawBytes), 4 * g + 1), sel(HA(rawBytes), 4 * g)))))
+//@ end template
 
 // an RLE run of any length >= 0 yields that many copies, written inside the slice made for them
 //@ func readRLE
